@@ -144,6 +144,15 @@ class Node(object):
     coq = None          # Gallina term of type @space Q
     desc = None         # json description
 
+    def rand_c(self, rng):
+        """complex leaf element -> (odl element, Gallina re tree, Gallina im tree); never real"""
+        re = _rand_arr(rng, self.shape, 'int')
+        im = _rand_arr(rng, self.shape, 'int')
+        if not np.any(im):
+            im.flat[0] = float(rng.choice([1, -2, 3]))
+        el = self.space.element(re + 1j * im)
+        return el, '(ELeaf %s)' % qlist(re), '(ELeaf %s)' % qlist(im)
+
     def rand(self, rng, kind='int'):
         """-> (odl element, Gallina term of type @elem Q, is_nonzero)"""
         raise NotImplementedError
@@ -405,6 +414,11 @@ class ProdNode(Node):
                      'parts': [c.desc for c in children]}
         self.rtol = max([1e-10] + [c.rtol for c in children])
 
+    def rand_c(self, rng):
+        parts = [c.rand_c(rng) for c in self.children]
+        el = self.space.element([pt[0] for pt in parts])
+        return (el, '(ENode %s)' % C.lst([pt[1] for pt in parts]), '(ENode %s)' % C.lst([pt[2] for pt in parts]))
+
     def rand(self, rng, kind='int'):
         parts = [c.rand(rng, kind) for c in self.children]
         el = self.space.element([pt[0] for pt in parts])
@@ -576,6 +590,56 @@ def complex_cases(rng, tier):
     return cs
 
 
+def ctree_cases(rng, tier):
+    """Complex spaces of any nesting: <x, y> itself (re and im) on non-real data, for default / constant /
+    array product weightings at every level (the component inner products must be gathered as
+    x1i.inner(x2i): the conjugate shows up in the imaginary part)."""
+    cs = C.CaseSet('ctree', ['Base.Vec', 'C02.Model', 'C02.Corr'], 'check_ct', 'ct_case')
+    qt = quirks_term()
+    thorough = tier != 'quick'
+    CD = 'complex128'
+
+    def leaf(p=2):
+        if rng.random() < 0.35:
+            for _ in range(20):
+                lf = DiscrLeaf(rng, p, dtype=CD)
+                if not lf.fragile():
+                    return lf
+        return TensorLeaf(rng, p, dtype=CD)
+
+    nodes = []
+    for wk in ('none', 'const', 'array'):
+        for rep in range(2 if not thorough else 6):
+            k = rng.randint(1, 3)
+            nodes.append(ProdNode(rng, 2, [leaf() for _ in range(k)], wkind=wk))                 # flat
+            nodes.append(ProdNode(rng, 2, [TensorLeaf(rng, 2, dtype=CD)] * rng.randint(2, 3), wkind=wk, power=True))
+            for wk_in in ('none', 'const', 'array'):                                             # nested
+                inner = ProdNode(rng, 2, [leaf() for _ in range(rng.randint(1, 3))], wkind=wk_in)
+                nodes.append(ProdNode(rng, 2, [inner] + [leaf() for _ in range(rng.randint(0, 2))], wkind=wk))
+            # depth 3, array weights in the middle
+            mid = ProdNode(rng, 2, [ProdNode(rng, 2, [leaf(), leaf()], wkind=rng.choice(['array', 'const'])), leaf()],
+                           wkind='array')
+            nodes.append(ProdNode(rng, 2, [mid, leaf()], wkind=wk))
+        # no inner product: some exponent != 2 on the way (NotImplementedError, first failing component wins)
+        nodes.append(ProdNode(rng, rng.choice([1, INF, 3]), [leaf()], wkind=wk))
+        nodes.append(ProdNode(rng, 2, [leaf(), leaf(rng.choice([1, INF, 3]))], wkind=wk))
+    for _ in range(30 if not thorough else 300):
+        nd = rand_tree(rng, rng.choice([1, 2, 2, 3]), tier, p=2, coherent=0.92, dtype=CD)
+        if isinstance(nd, ProdNode):
+            nodes.append(nd)
+    for node in nodes:
+        for _ in range(1 if not thorough else 2):
+            x, xr, xi = node.rand_c(rng)
+            y, yr, yi = node.rand_c(rng)
+            out, v = impl_call(lambda: x.inner(y))
+            im = v.imag if isinstance(v, complex) else 0.0
+            term = ('{| t_q := %s; t_s := %s; t_xr := %s; t_xi := %s; t_yr := %s; t_yi := %s; t_out := %s; '
+                    't_out_im := %s |}' % (qt, node.coq, xr, xi, yr, yi, out, C.q(im)))
+            cs.add(term, {'space': node.desc, 'op': 'inner', 'impl': out, 'im': im},
+                   (C.digest(node.desc), C.digest([xr, xi, yr, yi])))
+    return cs
+
+
 def partition_cases(rng, tier):
     import odl
     cs = C.CaseSet('partition', ['Base.Vec', 'C02.Model', 'C02.Corr'], 'check_p', 'p_case')
@@ -612,7 +676,7 @@ def partition_cases(rng, tier):
 
 
 def correspondence(rng, tier):
-    return [sp_cases(rng, tier), complex_cases(rng, tier)] + partition_cases(rng, tier)
+    return [sp_cases(rng, tier), complex_cases(rng, tier), ctree_cases(rng, tier)] + partition_cases(rng, tier)
 
 
 # ------------------------------------------------------------------ probes
@@ -775,8 +839,8 @@ def _kind(space):
 def probe_space(out, src, space, rng, cplx=False):
     xd, yd, zd = [rand_data(rng, space, cplx) for _ in range(3)]
     a = rng.choice([-2.0, 0.5, 3.0, -1.0, 0.0, 1.5])
-    if space.is_complex and rng.random() < 0.7:
-        a = complex(a, rng.choice([1.0, -2.0, 0.5]))
+    if space.is_complex:
+        a = complex(a, rng.choice([1.0, -2.0, 0.5]))      # never real: anti-linearity must show
     kk = known_key(space)
     kind = _kind(space)
     res = check_space(space, xd, yd, zd, a)
@@ -831,6 +895,27 @@ def probes(rng, tier):
                                                  for sp in _walk(node.space)):
             continue
         probe_space(out, node.src, node.space, rng)
+    # complex product spaces, deterministic grid: product weighting kind x nesting with an array-weighted inner
+    # level; data and scalar non-real; <x,y> is compared (re and im) with the independent oracle and
+    # <a x + y, z> = a <x,z> + <y,z> is checked with non-real a
+    CD = 'complex128'
+    for wk in ('none', 'const', 'array'):
+        for shape_kind in ('flat', 'power', 'nested-array', 'nested-const', 'deep'):
+            for _ in range(1 if not thorough else 3):
+                lf = lambda: TensorLeaf(rng, 2, dtype=CD) if rng.random() < 0.7 else DiscrLeaf(
+                    rng, 2, dtype=CD, axes=[('flags', rng.randint(2, 4), 0.0, 2.0, True, rng.random() < 0.5)],
+                    wkind='const')
+                if shape_kind == 'flat':
+                    node = ProdNode(rng, 2, [lf() for _k in range(rng.randint(2, 3))], wkind=wk)
+                elif shape_kind == 'power':
+                    node = ProdNode(rng, 2, [TensorLeaf(rng, 2, dtype=CD)] * 2, wkind=wk, power=True)
+                elif shape_kind in ('nested-array', 'nested-const'):
+                    inner_n = ProdNode(rng, 2, [lf(), lf()], wkind=shape_kind.split('-')[1])
+                    node = ProdNode(rng, 2, [inner_n, lf()], wkind=wk)
+                else:
+                    inner_n = ProdNode(rng, 2, [ProdNode(rng, 2, [lf(), lf()], wkind='array'), lf()], wkind='const')
+                    node = ProdNode(rng, 2, [inner_n, lf()], wkind=wk)
+                probe_space(out, node.src, node.space, rng, cplx=True)
     # complex product spaces (constant and array weights, nested)
     for _ in range(6 if not thorough else 40):
         p = rng.choice([1, 2, 2, INF, 3])
@@ -933,7 +1018,7 @@ LEVEL_TEXT = ('Proof (Coq, carrier R, all lengths / shapes / tree depths): for c
               'exponents {1,2,inf,3,4} x dtypes x C/F data x sizes 0..60000 x boundary flags x nested trees.')
 LEVEL_NOTE = ('Validated, not proved: NumPy/BLAS kernels and float rounding (compared to rtol 1e-10, float32 1e-5); '
               'apply_on_boundary modelled as an outer product of per-axis vectors; non-integer exponents (1.5, 2.5) and '
-              'complex product spaces only probed; custom inner/norm/dist are pass-through (delegation probed); the '
+              'norm/dist of complex product spaces only probed (their inner product is modelled and proved); custom inner/norm/dist are pass-through (delegation probed); the '
               'Q-instance p-th root (exact on perfect powers, else 2^-64 floor approximations) stands for the real root. '
               'Eight recorded findings are modelled through measured variant switches (quirks) or excluded inputs and '
               'reproduced by probes.  Axioms: classical reals + functional extensionality as printed.')
